@@ -275,7 +275,7 @@ def replay_file(path):
 # --------------------------------------------------------------------------
 
 def write_replay(pid, scn, v, digest, extra=None):
-    d = os.path.join(VERIF, 'replays')
+    d = os.environ.get('VERIF_REPLAY_DIR') or os.path.join(VERIF, 'replays')
     os.makedirs(d, exist_ok=True)
     name = '%s-%s-%s.json' % (pid, scn.get('seed', scn.get('run', 'x')),
                               scn_digest([v['oracle'], v['detail']])[:6])
@@ -483,9 +483,11 @@ def run_check(pid, tier):
     wall = time.time() - t0
     ev = build_evidence(mod, pid, tier, master, agg, wall, search_s,
                         len(seen), known_lines, stale)
-    os.makedirs(os.path.join(VERIF, 'evidence'), exist_ok=True)
+    evdir = os.environ.get('VERIF_EVIDENCE_DIR') or \
+        os.path.join(VERIF, 'evidence')
+    os.makedirs(evdir, exist_ok=True)
 
-    with open(os.path.join(VERIF, 'evidence', '%s.json' % pid), 'w') as fp:
+    with open(os.path.join(evdir, '%s.json' % pid), 'w') as fp:
         json.dump(ev, fp, indent=1, sort_keys=True)
         fp.write('\n')
 
